@@ -63,6 +63,14 @@ TOPOS = {
     'nest-s': Topo('nest-s', {1: None, 2: 1, 3: None}, invs=[],
                    sure=[(1, 'VCPU'), (3, 'VCPU'), (2, 'DISK_GB')],
                    aggs=[(3, 1)], sure_aggs=[(2, 1)], sharing=[2]),
+    # three classes spread so that a leading subset may have no common tree
+    'three': Topo('three', {1: None, 2: 1, 3: None},
+                  invs=[(1, 'VCPU'), (3, 'VCPU'), (2, 'MEMORY_MB'),
+                        (3, 'MEMORY_MB'), (1, 'DISK_GB'), (3, 'DISK_GB')]),
+    'three-s': Topo('three-s', {1: None, 2: None, 3: None},
+                    invs=[(1, 'VCPU'), (2, 'VCPU'), (1, 'MEMORY_MB'),
+                          (2, 'MEMORY_MB')], sure=[(3, 'DISK_GB')],
+                    sure_aggs=[(1, 1), (2, 1), (3, 1)], sure_sharing=[3]),
     'two-i': TWO.but(sure=[(1, 'VCPU'), (3, 'DISK_GB')],
                      invs=[(2, 'VCPU'), (3, 'VCPU'), (2, 'DISK_GB')]),
 }
@@ -91,6 +99,14 @@ def QUERIES(tier):
                              subtrees=[['_1', '_2']]),
         'u-1.28': Query({'': G({'VCPU': None, 'DISK_GB': None})},
                         version='1.28'),
+        # three classes in the unsuffixed group
+        'u-3rc': Query({'': G({'VCPU': None, 'MEMORY_MB': 1,
+                               'DISK_GB': 1})}),
+        'u-3rc-rev': Query({'': G({'DISK_GB': 1, 'MEMORY_MB': 1,
+                                   'VCPU': None})}),
+        'u-3rc+1': Query({'': G({'VCPU': None, 'MEMORY_MB': 1,
+                                 'DISK_GB': 1}),
+                          '_1': G({'DISK_GB': 1})}, policy='none'),
         # three groups, the same class in two groups that are not adjacent
         'u+1+2-nonadj': Query({'': G({'VCPU': None}), '_1': G({'DISK_GB': 1}),
                                '_2': G({'VCPU': None})}, policy='none'),
@@ -125,9 +141,11 @@ QUICK = [('flat', 'u-vcpu-disk', False), ('tree-t', 'u-req', False),
          ('tree-t', 'u-rootreq', False), ('two-i', '1+2-subtree', False),
          ('two', 'u-vcpu-disk', True), ('tree-a', 'u-notmember', False),
          ('tree', 'u+1+2-nonadj', False), ('flat-t', 'u+D-rootreq', False),
-         ('flat', 'u+D-root-notsharing', False)]
+         ('flat', 'u+D-root-notsharing', False), ('three', 'u-3rc', False)]
 
 THOROUGH_EXTRA = [
+    ('three', 'u-3rc-rev', False), ('three-s', 'u-3rc', False),
+    ('three', 'u-3rc+1', False), ('three', 'u-3rc', True),
     ('two', 'u+1+2-nonadj', False), ('two', '1+2+3-nonadj', False),
     ('tree', '1+2+3-nonadj', False), ('tree', '1+2+3-isolate', False),
     ('flat', 'u+1+2-nonadj', False), ('flat-s', 'u+1+2-nonadj', False),
